@@ -36,7 +36,9 @@
 #define V_CAT(a, b) V_CAT_(a, b)
 
 /* number of blocks of pad(msg) for a message of len bytes */
+#ifndef V_PADBLOCKS
 #define V_PADBLOCKS(len)	(((len) + 1 + A_LENB + A_BLK - 1) / A_BLK)
+#endif
 
 #ifndef V_MAXCALLS
 #error "define V_MAXCALLS (upper bound on transform calls in one harness run) before including the adapter"
